@@ -131,8 +131,8 @@ package plugin
 //@   loop 1 invariant#answered calls("readStanza", 1) - old(calls("readStanza", 1)) == (calls("writeStanza", 5) - old(calls("writeStanza", 5))) + (calls("writeStanza", 6) - old(calls("writeStanza", 6))) + (calls("writeStanza", 8) - old(calls("writeStanza", 8))) + ($handled - old($handled))   [C16]
 //@   loop 1 invariant#phase1 calls("writeStanza", 1) == old(calls("writeStanza", 1)) + 1 && calls("writeStanza", 2) == old(calls("writeStanza", 2)) + 1 && calls("writeStanzaWithBody", 1) == old(calls("writeStanzaWithBody", 1)) + 1 && calls("writeStanza", 3) == old(calls("writeStanza", 3)) + 1 && calls("writeStanza", 4) == old(calls("writeStanza", 4)) + 1   [C16]
 //@   loop 1 decreases len(sr.r.$rem)
-//@   ensures#readerr lasterr("readStanza", 1) != nil ==> err != nil                                                              [C13 C16]
-//@   ensures#done err == nil ==> lasterr("readStanza", 1) == nil                                                                  [C16]
+//@   ensures#readerr lasterr("readStanza", 1) != nil ==> err != nil                                                              [C13 C16 C11]
+//@   ensures#done err == nil ==> lasterr("readStanza", 1) == nil                                                                  [C16 C11]
 //@   ensures#nonempty err == nil ==> len(stanzas) > 0 && len(stanzas) == calls("writeStanza", 5) - old(calls("writeStanza", 5))    [C16]
 //@   ensures#phase1 err == nil ==> calls("writeStanza", 1) == old(calls("writeStanza", 1)) + 1 && calls("writeStanza", 2) == old(calls("writeStanza", 2)) + 1 && calls("writeStanzaWithBody", 1) == old(calls("writeStanzaWithBody", 1)) + 1 && calls("writeStanza", 3) == old(calls("writeStanza", 3)) + 1 && calls("writeStanza", 4) == old(calls("writeStanza", 4)) + 1   [C16]
 //@   ensures#labelsonce err == nil ==> calls("writeStanza", 6) <= old(calls("writeStanza", 6)) + 1                                 [C16]
